@@ -125,6 +125,7 @@ def parse_callee(s: str) -> Callee:
             qself = q.strip()
         rest = rest.lstrip(":")
     # collect turbofish args & strip
+    impl_self = None
     targs = []
     i = 0
     segtxt = []
@@ -134,9 +135,11 @@ def parse_callee(s: str) -> Callee:
             e = mir.find_matching(rest, j)
             inner = rest[j + 1 : e]
             if inner.startswith("impl "):
-                # core::slice::<impl [T]>::get  -> pseudo segment
+                # core::slice::<impl [T]>::get  -> pseudo segment ; flat::<impl ast::Term<DeBruijn>>::decode_debug -> qualified self
                 t = inner[5:].strip()
                 segtxt.append("::" + ("[T]" if t.startswith("[") else _type_head(t)))
+                if " for " not in t and "<" in t and not t.startswith("["):
+                    impl_self = t
             else:
                 targs.extend(split_top(inner))
             i = e + 1
@@ -158,6 +161,8 @@ def parse_callee(s: str) -> Callee:
         else:
             norm.append(sg)
     segs = norm
+    if qself is None and impl_self is not None:
+        qself = impl_self
     if qself is not None and trait is not None:
         key = f"<{_type_head(qself)} as {_type_head(trait)}>::{segs[-1] if segs else ''}"
     elif qself is not None:
@@ -582,7 +587,10 @@ class Executor:
             items = v.items if isinstance(v, VecV) else v
             if isinstance(items, Arr):
                 a, b, from_end = el[1], el[2], el[3]
-                hi = len(items.elems) - b if from_end else b
+                if b is None:
+                    hi = len(items.elems)
+                else:
+                    hi = len(items.elems) - b if from_end else b
                 return Arr(items.elems[a:hi])
             raise Unsupported("subslice")
         raise Unsupported(f"projection {el}")
@@ -764,7 +772,7 @@ class Executor:
             raise Unsupported(f"static allocation {c}")
         m = re.match(r"^ZeroSized: (\{closure@.*\})$", c)
         if m:
-            return Closure(m.group(1), ())
+            return Closure(m.group(1), (), tuple(sorted(fr.generics.items())))
         # zero-sized function item
         if c.endswith(">") or re.match(r"^[\w:<>{}@#\[\]., '&/-]+$", c):
             # named constant in one of the modules?
@@ -782,6 +790,20 @@ class Executor:
             # promoted[N] of current fn
             m = re.match(r"^(.*)::promoted\[(\d+)\]$", c)
             if m:
+                mi = re.match(r"^(.*)<impl (.*) for (.*)>::(\w+)$", m.group(1))
+                if mi:
+                    for mod in self.modules:
+                        for f in mod.find(mi.group(3), mi.group(4), mi.group(2)):
+                            for key in (f"promoted[{m.group(2)}] in {f.name}", f"{f.name}::promoted[{m.group(2)}]"):
+                                if key in mod.promoteds:
+                                    return self.eval_const_item(st, mod.promoteds[key])
+                mi = re.match(r"^(.*)<impl ([^<>]*(?:<.*>)?)>::(\w+)$", m.group(1))
+                if mi and " for " not in mi.group(2):
+                    for mod in self.modules:
+                        for f in mod.find(mi.group(2), mi.group(3)):
+                            for key in (f"promoted[{m.group(2)}] in {f.name}", f"{f.name}::promoted[{m.group(2)}]"):
+                                if key in mod.promoteds:
+                                    return self.eval_const_item(st, mod.promoteds[key])
                 for mod in self.modules:
                     for k, f in mod.promoteds.items():
                         if k.startswith(f"promoted[{m.group(2)}] in ") and (k.endswith(m.group(1)) or fr.fn.name.endswith(k.split(" in ", 1)[1]) or k.split(" in ", 1)[1].endswith(m.group(1))):
@@ -879,7 +901,7 @@ class Executor:
             return Arr(tuple([v] * cnt))
         if k == "closure":
             name, caps = rv.args
-            return Closure(name, tuple((n, self.eval_operand(st, fr, o)) for n, o in caps))
+            return Closure(name, tuple((n, self.eval_operand(st, fr, o)) for n, o in caps), tuple(sorted(fr.generics.items())))
         if k == "adt":
             return self.build_adt(st, fr, rv, dest_ty)
         raise Unsupported(f"rvalue {rv.text[:80]}")
@@ -1142,6 +1164,9 @@ class Executor:
             fv = self.eval_operand(st, fr, t.callee_op)
             if isinstance(fv, FnRef):
                 callee_s = fv.name
+            elif isinstance(fv, Closure):
+                res = self.summ.Forked(self.summ.call_closure(self, st, fv, args))
+                return self.finish_call(st, fr, res, t.dest, t.target, work, outs, parse_callee("closure"))
             else:
                 raise Unsupported(f"indirect call through {type(fv).__name__}")
         else:
@@ -1186,8 +1211,18 @@ class Executor:
 
     def infer_generics(self, fn: Function, c: Callee, fr: Frame) -> Dict[str, str]:
         g = {}
-        if fr is not None and fr.generics:
+        if fr is not None and fr.generics and ("{closure" in fn.name or fn.impl_generics == [] and fn.self_ty is None and "::<" not in c.raw):
+            # closures (and non-generic helpers) live in their parent's generic context
             g.update(fr.generics)
+        if fn.self_ty and c.qself is None and fn.impl_generics and c.targs:
+            # inherent method called as Type::<Args>::method
+            st_tree = mir.type_tree(fn.self_ty)
+            k = len(st_tree[1])
+            if k and len(c.targs) >= k:
+                b = {}
+                mir.unify_ty(st_tree, (st_tree[0], [mir.type_tree(a) for a in c.targs[:k]]), fn.impl_generics, b)
+                for kk, v in b.items():
+                    g[kk] = mir.tree_str(v)
         if fn.self_ty and c.qself and fn.impl_generics:
             b = {}
             mir.unify_ty(mir.type_tree(fn.self_ty), mir.type_tree(c.qself), fn.impl_generics, b)
